@@ -45,7 +45,7 @@ def run(snap, tier, seed, t0, replay):
     def shard(tier_, seed_):
         return shard_args(tier_, seed_)
     return driver.simple_run("C19", snap, tier, seed, t0, replay, LEVEL, RULE, ASSUME, shard, floors_fn=floors,
-                             envs_fn=None)
+                             envs_fn=None, replay_extra={"_no_spil": True})
 
 
 # ------------------------------------------------------------------------------------- reference
